@@ -33,6 +33,10 @@ def runJson (r : Repl.PR) : Json :=
 
 def handleE (j : Json) : Except String Json := do
   let what ← j.getObjValAs? String "what"
+  if what == "durationFor" then
+    let bw ← j.getObjValAs? Nat "bandwidth"
+    let n ← j.getObjValAs? Nat "n"
+    return Json.mkObj [("durationFor", toJson (Timing.durationFor bw n))]
   if what == "backOff" then
     let round ← j.getObjValAs? Nat "round"
     let max ← j.getObjValAs? Nat "max"
